@@ -1,3 +1,107 @@
 import PysphVerif.Driver.Common
-/-! Line-protocol driver for C14 (stub: not built yet). -/
-def main : IO Unit := PysphVerif.Driver.loopPure (fun _ => "bad-op")
+import PysphVerif.Model.Interp
+/-!
+Line protocol for C14 (Float, bit patterns `x<16 hex>`):
+
+* `pt method=<shepard|sph|splash|splash_norm|rho> tol=<f> nb=<fl>` — one
+  destination particle; `nb` is the flat list of neighbour records, 10 doubles
+  each: `w dw0 dw1 dw2 sx sy sz m rho f`, in the order the evaluator visits them.
+  Answer `val <f>`.
+* `pt method=order1 tol=<f> dim=<1|2|3> d=<x,y,z> nb=<fl>` — answer
+  `val <4 doubles> mom <16 doubles> psph <4 doubles>`.
+* `post tol=<f> dim=<n> a=<16 doubles> b=<4 doubles>` — `post_loop` of order1 on
+  given moment matrix / right-hand side; answer `val <4 doubles>`.
+* bindings (stateful): `B init arrays=<nats> pts=<nat>`, `B setpts p=<nat>`,
+  `B updarr arrays=<nats>`, `B update`, `B mutate o=<nat>`, and for SPHEvaluator `B initeval objs=<nats>`,
+  `B evalupdarr objs=<nats>`; each answers
+  `filled=<nats> evaluated=<nats> binned=<nats> result=<nat> current=<true|false>`.
+-/
+namespace PysphVerif.Driver.C14
+open PysphVerif.Wire PysphVerif.Interp
+
+def toNbrs : List Float → Option (List (Nbr Float))
+  | [] => some []
+  | w :: d0 :: d1 :: d2 :: sx :: sy :: sz :: m :: rho :: f :: rest =>
+    (toNbrs rest).map (fun t =>
+      { w := w, dw0 := d0, dw1 := d1, dw2 := d2, sx := sx, sy := sy, sz := sz,
+        m := m, rho := rho, f := f } :: t)
+  | _ => none
+
+def showFl (l : List Float) : String := showList showFloatBits l
+
+def handlePt (kv : List (String × String)) : String :=
+  match lookup kv "method", (lookup kv "tol") >>= parseFloatBits?,
+        (lookup kv "nb") >>= parseList? parseFloatBits? >>= toNbrs with
+  | some meth, some tol, some nbrs =>
+    if meth = "shepard" then "val " ++ showFloatBits (shepard tol nbrs)
+    else if meth = "sph" then "val " ++ showFloatBits (sph nbrs)
+    else if meth = "splash" then "val " ++ showFloatBits (splash nbrs)
+    else if meth = "splash_norm" then "val " ++ showFloatBits (splashNorm tol nbrs)
+    else if meth = "rho" then "val " ++ showFloatBits (summationDensity nbrs)
+    else if meth = "order1" then
+      match (lookup kv "dim") >>= parseNat?, (lookup kv "d") >>= parseList? parseFloatBits? with
+      | some dim, some [x, y, z] =>
+        if dim < 1 ∨ dim > 3 then "bad-op" else
+        let d : Pos Float := ⟨x, y, z⟩
+        "val " ++ showFl (order1 tol dim d nbrs).toList ++
+        " mom " ++ showFl (momentFlat d nbrs).toList ++
+        " psph " ++ showFl (psphFlat nbrs).toList
+      | _, _ => "bad-op"
+    else "bad-op"
+  | _, _, _ => "bad-op"
+
+def handlePost (kv : List (String × String)) : String :=
+  match (lookup kv "tol") >>= parseFloatBits?, (lookup kv "dim") >>= parseNat?,
+        (lookup kv "a") >>= parseList? parseFloatBits?,
+        (lookup kv "b") >>= parseList? parseFloatBits? with
+  | some tol, some dim, some a, some b =>
+    if dim < 1 ∨ dim > 3 ∨ a.length ≠ 16 ∨ b.length ≠ 4 then "bad-op"
+    else "val " ++ showFl (order1Post tol dim a.toArray b.toArray).toList
+  | _, _, _, _ => "bad-op"
+
+def showNats (l : List Nat) : String := showList toString l
+
+def showReads (s : IState) : String :=
+  let r := interpolateReads s
+  s!"filled={showNats r.filled} evaluated={showNats r.evaluated} binned={showNats r.binned} result={r.result} current={r.neighboursCurrent}"
+
+def handleB (st : Option IState) (toks : List String) : Option IState × String :=
+  match toks with
+  | cmd :: rest =>
+    let kv := kvs rest
+    if cmd = "init" then
+      match (lookup kv "arrays") >>= parseList? parseNat?, (lookup kv "pts") >>= parseNat? with
+      | some as, some p => let s := init as p; (some s, showReads s)
+      | _, _ => (st, "bad-op")
+    else if cmd = "initeval" then
+      match (lookup kv "objs") >>= parseList? parseNat? with
+      | some objs => let s := initEval objs; (some s, showReads s)
+      | _ => (st, "bad-op")
+    else
+      match st with
+      | none => (st, "bad-op")
+      | some s =>
+        let op : Option Op :=
+          if cmd = "setpts" then ((lookup kv "p") >>= parseNat?).map Op.setPoints
+          else if cmd = "updarr" then
+            ((lookup kv "arrays") >>= parseList? parseNat?).map Op.updateArrays
+          else if cmd = "evalupdarr" then
+            ((lookup kv "objs") >>= parseList? parseNat?).map Op.evalUpdateArrays
+          else if cmd = "update" then some Op.update
+          else if cmd = "mutate" then ((lookup kv "o") >>= parseNat?).map Op.mutate
+          else none
+        match op with
+        | none => (st, "bad-op")
+        | some o => let s' := step s o; (some s', showReads s')
+  | [] => (st, "bad-op")
+
+def handle (st : Option IState) (line : String) : Option IState × String :=
+  match tokens line with
+  | "pt" :: rest => (st, handlePt (kvs rest))
+  | "post" :: rest => (st, handlePost (kvs rest))
+  | "B" :: rest => handleB st rest
+  | _ => (st, "bad-op")
+
+end PysphVerif.Driver.C14
+
+def main : IO Unit := PysphVerif.Driver.loop PysphVerif.Driver.C14.handle none
